@@ -120,6 +120,24 @@ let run_foldeq () =
         incr pviol;
         Printf.printf "PROPVIOL prop=C10 case=U+%04X,U+%04X flags=%s detail=backref:%s,literal:%s,class:%s,negclass:%s,reference_equivalent:%b\n"
           ci di (if ub then "iu" else "i") br lit cls ncls ref_eq end
+    | "V" :: u :: a :: b :: d :: r :: nr :: _ ->
+      incr n;
+      let ub = (u = "1") in
+      let ai = ios a and bi = ios b and di = ios d in
+      let dn = n_of_int di in
+      let rec ex f c = if c > bi then false else f c || ex f (c + 1) in
+      let model_in = ex (fun c -> fold_code_point (n_of_int c) ub = fold_code_point dn ub) ai in
+      let ref_in = ex (fun c -> canon_ref ub (n_of_int c) = canon_ref ub dn) ai in
+      let knownv = ex known29 ai || known29 di in
+      if model_in && (di < ai || di > bi) then incr nontrivial;
+      let impl_ok e = (r = (if e then "1" else "0") && nr = (if e then "0" else "1")) in
+      if not (impl_ok model_in) then begin
+        incr mism;
+        Printf.printf "MISMATCH stage=S7-foldeq-interval unicode=%s a=%d b=%d d=%d impl=cls:%s,ncls:%s model_member=%b\n" u ai bi di r nr model_in end;
+      if not (impl_ok ref_in) && not ((not ub) && knownv) then begin
+        incr pviol;
+        Printf.printf "PROPVIOL prop=C10 case=[U+%04X-U+%04X],U+%04X flags=%s detail=class:%s,negclass:%s,reference_member:%b\n"
+          ai bi di (if ub then "iu" else "i") r nr ref_in end
     | [] -> ()
     | _ -> failwith ("bad line: " ^ line)
   done with End_of_file -> ());
